@@ -41,7 +41,7 @@ def seq_expr(base, n, variant=0):
     raise ValueError(base)
 
 
-def base_values(ck, base, lengths, mutable_only=False, item_op=False):
+def base_values(ck, base, lengths, mutable_only=False, item_op=False, few_kinds=False):
     """argument expressions for the sequence parameter. None is passed to typed parameters except for integer
     indexing of str/bytes/bytearray-typed ones: with the default `nonecheck=False` that access is documented as
     unchecked (it reads through the None object), so it is outside the statement (reported to C36 separately)."""
@@ -49,7 +49,7 @@ def base_values(ck, base, lengths, mutable_only=False, item_op=False):
     if base == 'object':
         kinds = MUTABLE[:2] if mutable_only else ['list', 'tuple', 'str', 'bytes', 'bytearray']
         for k in kinds:
-            for n in (lengths if not ck.quick else [0, 3, 8]):
+            for n in (lengths if not (ck.quick or few_kinds) else [0, 3, 8]):
                 out.append(seq_expr(k, n))
         if mutable_only:
             out += ['(10, 11, 12)', "'abc'", "b'abc'"]          # immutable: TypeError expected
@@ -62,7 +62,7 @@ def base_values(ck, base, lengths, mutable_only=False, item_op=False):
         out.append(seq_expr(base, n))
     if base == 'str':
         for v in ((1, 2, 3) if not ck.quick else (1, 3)):
-            for n in (lengths if not ck.quick else [2, 8]):
+            for n in (lengths if not (ck.quick or few_kinds) else [2, 8]):
                 if n:
                     out.append(seq_expr(base, n, v))
     if not (item_op and base in ('str', 'bytes', 'bytearray')):
@@ -264,7 +264,8 @@ def gen(ck):
         for base in bases:
             if op != 'sliceget' and base == 'bytearray' and quick:
                 continue
-            svals = base_values(ck, base, lengths if quick else lengths[:6] + [8], mutable_only=(op != 'sliceget'))
+            svals = base_values(ck, base, lengths if quick else lengths[:6] + [8], mutable_only=(op != 'sliceget'),
+                                few_kinds=True)
             extra = ', t' if op == 'sliceset' else ''
             for bk in ['object', 'Py_ssize_t'] + ([] if quick else ['int']):
                 pp = ', a, b, c' if bk == 'object' else ', %s a, %s b, %s c' % (bk, bk, bk)
@@ -277,6 +278,8 @@ def gen(ck):
                     triples += [('0', '5', c) for c in ('2**63', '-2**63 - 1', 'Idx(2)', 'I(-1)', '1.5', 'True', 'IdxRaises()')]
                 else:
                     tv = [v for v in tri_vals if v != 'None']
+                    if not quick:       # all triples over [-10, 10] are run with object bounds; C-typed ones are thinned
+                        tv = [v for v in tv if abs(int(v)) <= 5 or abs(int(v)) >= 9]
                     if op != 'sliceget' and quick:
                         tv = tv[::2]
                     lo, hi = CTYPES[bk]
